@@ -32,11 +32,18 @@ Req(m) == { x \in Members(m) : Table[m][x].kind = "req" }
 Always(m) == { x \in Members(m) : Table[m][x].kind \in {"req", "dflt"} }
 KnownKeys(m) == { Table[m][x].key : x \in Members(m) }
 
-\* the keys a serialisation must show: ascending integers of the members present
+\* the keys a serialisation must show: ascending integers of the members present (a defaulted member may be written
+\* or left out - what matters for it is that the value survives the round trip)
 ExpectedKeys(m, present) == SetToSortSeq({ Table[m][x].key : x \in Always(m) \cup present }, <)
+ExpectedKeysNoDflt(m, present) == SetToSortSeq({ Table[m][x].key : x \in Req(m) \cup present }, <)
+Digit(s, i) == SubSeq(s, i, i) = "1"
 
 Case(m, p, v, a) == [msg |-> m, present |-> p, variant |-> v, arg |-> a]
-PlainCases(m) == { Case(m, p, "plain", "none") : p \in SUBSET Opt(m) }
+\* requests are tried with every value of the rk / up / uv options ("rk,up,uv" as three digits)
+OptionValues == {"000", "001", "010", "011", "100", "101", "110", "111"}
+PlainCases(m) == IF m \in {"mcReq", "gaReq"}
+                 THEN { Case(m, p, "plain", o) : p \in SUBSET Opt(m), o \in OptionValues }
+                 ELSE { Case(m, p, "plain", "none") : p \in SUBSET Opt(m) }
 UnknownIntCases(m) == { Case(m, Opt(m), "unknown-int", ToString(k)) : k \in ({0, 10, 23, 24, 100, 255} \ KnownKeys(m)) }
 DupCases(m) == { Case(m, Opt(m), "dup", x) : x \in Members(m) }
 MissingCases(m) == { Case(m, {}, "missing", x) : x \in Req(m) }
@@ -48,8 +55,10 @@ Cases ==
 
 JudgeCase(e) ==
     CASE e.variant = "plain" ->
-           /\ e.ser /\ e.keys = ExpectedKeys(e.msg, ToSet(e.present)) /\ e.textkeys = 0 /\ ~e.nulls
+           /\ e.ser /\ e.keys \in {ExpectedKeys(e.msg, ToSet(e.present)), ExpectedKeysNoDflt(e.msg, ToSet(e.present))}
+           /\ e.textkeys = 0 /\ ~e.nulls
            /\ e.de = "ok" /\ e.rt
+           /\ (e.arg \in OptionValues => e.rk = Digit(e.arg, 1) /\ e.up = Digit(e.arg, 2) /\ e.uv = Digit(e.arg, 3))
       [] e.variant \in {"unknown-int", "unknown-text"} -> e.de = "ok" /\ e.rt         \* ignored: same value as without it
       [] e.variant \in {"dup", "missing"} -> e.de = "err"
       [] e.variant = "no-options" -> e.de = "ok" /\ e.up /\ ~e.rk /\ ~e.uv
